@@ -430,7 +430,8 @@ func (m *Monitors) afterDeliver(n *RealNode, f *Flight, enc string) {
 				net.c.Nontrivial("c11/viewchange")
 			}
 		case *interfaces.NewViewMessage:
-			if mv >= pre.v && !pre.hasPPAtMV && !interfered && sameHeight {
+			// (a member whose contexts of this height were already cancelled by a pending node sync is leaving the height: it validates nothing)
+			if mv >= pre.v && !pre.hasPPAtMV && !interfered && sameHeight && n.AheadUntil <= pre.h {
 				_, has := n.Store.GetPreprepareMessage(x.BlockHeight(), x.View())
 				if uint64(post.View()) != mv || !has {
 					m.viol("C11", "honest-newview-not-adopted", fmt.Sprintf("node %d (view %d) did not adopt the NEW_VIEW of correct leader %x for view %d", n.Idx, pre.v, f.From, mv))
